@@ -63,17 +63,30 @@ def base_forms(tier):
                              "settings": [{"form_title": "T", "form_id": "fid", "version": "7", "style": "pages"}]}))
     out.append(("entities", {"survey": [{"type": "text", "name": "q", "label": "Q", "save_to": "p"}],
                              "entities": [{"list_name": "trees", "label": "${q}"}]}))
+    # extra sheets: a name close to a missing optional sheet (warning), an underscore-prefixed one, an unrelated one
+    for extra in ("setings", "entitie", "_settings", "notes", "Setting"):
+        out.append((f"extra-sheet:{extra}", {"survey": [{"type": "text", "name": "q", "label": "Q"}], extra: [{"form_title": "T", "x": "1"}]}))
+    out.append(("extra-sheet:two", {"survey": [{"type": "text", "name": "q", "label": "Q"}], "choices": [{"list_name": "c", "name": "x", "label": "X"}],
+                                    "setings": [{"a": "1"}], "entites": [{"a": "1"}]}))
     N = 4 if tier == "quick" else 5
     for i, forest in enumerate(forests_upto(N, 3)):
         out.append((f"layout:{i}", {"survey": rows_from_forest(forest, ["a", "b", "c", "d", "e", "f", "g"])}))
     return out
 
 
+KNOWN_SHEETS = {"survey", "choices", "settings", "external_choices", "entities", "osm"}
+
+
 def with_headers(wb):
+    """the dict delivery of a workbook: data + header row of every supported sheet, and the names of all sheets"""
     out = {}
-    for s in render.sheet_names(wb):
-        out[s] = [dict(r) for r in wb[s]]
-        out[s + "_header"] = [{h: None for h in render.headers_of(wb, s)}]
+    names = render.sheet_names(wb)
+    for s in names:
+        if s.lower() in KNOWN_SHEETS:
+            out[s] = [dict(r) for r in wb[s]]
+            out[s + "_header"] = [{h: None for h in render.headers_of(wb, s)}]
+    if any(s.lower() not in KNOWN_SHEETS for s in names):
+        out["sheet_names"] = list(names)
     return out
 
 
